@@ -828,6 +828,7 @@ func (r *run) runNet() {
 	// keyring / producer on node 0 (client transactions are built against its ledger)
 	r.P = s.nodes[0].n
 	r.prod = newProducer(r.P)
+	r.prod.probes = r.out.Probes
 	r.w = &world{contracts: map[util.Uint160]int32{}}
 	for i := 0; i < numAccounts; i++ {
 		r.w.accounts = append(r.w.accounts, r.prod.kr.acctHash(i))
